@@ -10,6 +10,7 @@ import (
 	"encoding/json"
 	"fmt"
 	"os"
+	"os/exec"
 	"path/filepath"
 	"strings"
 	"sync"
@@ -26,6 +27,10 @@ type job struct {
 	Schedules []string          `json:"schedules"`
 	Native    []string          `json:"native"` // schedules to run natively (P')
 	Timeout   float64           `json:"timeout"`
+	// Mod: GOPATH mode only (process started with GOPATH=<scratch> GO111MODULE=off, needed for programs with more than
+	// one user package): P is written to $GOPATH/src/<Mod>p, P' to $GOPATH/src/<Mod>q; the sources import their library
+	// package as "<Mod>p/lib" / "<Mod>q/lib".
+	Mod string `json:"mod"`
 }
 
 type runOut struct {
@@ -64,6 +69,29 @@ func conv(r gojs.RunResult) runOut {
 	return runOut{Stdout: clip(r.Stdout), Stderr: clip(r.Stderr), Class: r.Class(), Exit: r.Exit}
 }
 
+// gopathMode reports whether this process resolves user packages below $GOPATH/src.
+func gopathMode() string {
+	gp := os.Getenv("GOPATH")
+	if gp == "" || os.Getenv("GO111MODULE") != "off" || strings.Contains(gp, string(os.PathListSeparator)) {
+		return ""
+	}
+	return gp
+}
+
+// buildNativeGopath builds natively in GOPATH mode with the language version GopherJS implements (loop variables are
+// per loop, not per iteration).
+func buildNativeGopath(dir, out string) error {
+	cmd := exec.Command("go", "build", "-gcflags=-lang=go1.20", "-o", out, ".")
+	cmd.Dir = dir
+	cmd.Env = append(os.Environ(), "GOFLAGS=", "GOPROXY=off", "GOSUMDB=off", "GOTOOLCHAIN=local", "CGO_ENABLED=0", "GOOS=", "GOARCH=",
+		"GO111MODULE=off")
+	b, err := cmd.CombinedOutput()
+	if err != nil {
+		return fmt.Errorf("native build: %v: %s", err, b)
+	}
+	return nil
+}
+
 func compile(dir string, keep bool) (string, []declOut, map[string]bool, error) {
 	c := gojs.Compile(dir, gojs.Options{})
 	if c.Err != nil {
@@ -80,7 +108,7 @@ func compile(dir string, keep bool) (string, []declOut, map[string]bool, error) 
 			if len(d.FuncDeclCode) == 0 {
 				continue
 			}
-			if a.ImportPath == "." || a.Name == "main" {
+			if a.ImportPath == "." || a.Name == "main" || strings.HasSuffix(a.ImportPath, "/lib") {
 				do := declOut{Name: d.FullName, Blocking: d.Blocking}
 				if keep {
 					do.JS = string(d.FuncDeclCode)
@@ -103,6 +131,15 @@ func runJob(j job, scratch string) result {
 	}
 	dirP := filepath.Join(scratch, "p_"+j.ID)
 	dirQ := filepath.Join(scratch, "q_"+j.ID)
+	gp := gopathMode()
+	if j.Mod != "" {
+		if gp == "" {
+			res.Q = []runOut{{Err: "job with `mod` needs GOPATH=<scratch> GO111MODULE=off", Class: "setup-error"}}
+			return res
+		}
+		dirP = filepath.Join(gp, "src", j.Mod+"p")
+		dirQ = filepath.Join(gp, "src", j.Mod+"q")
+	}
 	defer os.RemoveAll(dirP)
 	defer os.RemoveAll(dirQ)
 	if j.P != nil {
@@ -155,7 +192,11 @@ func runJob(j job, scratch string) result {
 	}
 	if len(j.Native) > 0 {
 		bin := filepath.Join(dirQ, "native.bin")
-		if err := gojs.BuildNative(dirQ, bin); err != nil {
+		build := gojs.BuildNative
+		if j.Mod != "" {
+			build = buildNativeGopath
+		}
+		if err := build(dirQ, bin); err != nil {
 			res.Native = []runOut{{Err: err.Error(), Class: "compile-error"}}
 		} else {
 			for _, s := range j.Native {
